@@ -1,6 +1,7 @@
 (* C20 -- comparators used by the generated correspondence case files (definitions only): forward values and
    gradients of an AD term, evaluated exactly over Qc (transcendental nodes through the oracle table), against
-   the implementation's forward values and torch.autograd gradients. *)
+   the implementation's forward values and torch.autograd gradients (compared with G, the reverse-mode model that
+   stops at graph cuts; G = D on cut-free terms is a theorem). *)
 From Coq Require Import QArith Qabs Qcanon List Bool Arith.
 From DV Require Import Model.AD.
 Import ListNotations.
@@ -20,7 +21,7 @@ Definition ad_forward_ok (tol : Q) (o : oracle) (env : list Qc) (outs : list exp
 
 Definition ad_grad_ok (tol : Q) (o : oracle) (env : list Qc) (outs : list expr) (nv : nat) (jac : list (list Qc)) : bool :=
   forallb2 (fun e row =>
-              forallb2 (fun i g => match evalQ o env (D i e) with Some x => qrel_close tol x g | None => false end)
+              forallb2 (fun i g => match evalQ o env (G i e) with Some x => qrel_close tol x g | None => false end)
                        (seq 0 nv) row) outs jac.
 
 Definition q (n : Z) (d : positive) : Qc := Q2Qc (n # d).
